@@ -1022,7 +1022,7 @@ def set_item(ip, obj, idx, v, node):
                 if v.ek is None:
                     return
                 obj.ek = v.ek
-                obj.arr = z3.K(z3.IntSort(), default_term(v.ek))
+                obj.arr = empty_array(v.ek)
             lo, hi = slice_bounds(ip, idx, obj.n)
             hi = z3.If(hi > lo, hi, lo)
             ip.touch(obj)
@@ -1068,7 +1068,7 @@ def list_append(ip, lst, v):
     v = resolve(ip, v)
     if lst.ek is None:
         lst.ek = kind_of(v)
-        lst.arr = z3.K(z3.IntSort(), default_term(lst.ek))
+        lst.arr = empty_array(lst.ek)
     ip.touch(lst)
     lst.arr = z3.Store(lst.arr, lst.n, lst.ek.unwrap(v))
     lst.n = z3.simplify(lst.n + 1)
@@ -2917,7 +2917,7 @@ def spec_call(ip, e, fr):
         return v
     if name == 'listof':
         k = ev(e.args[0]).k
-        return VList(z3.K(z3.IntSort(), default_term(k)), z3.IntVal(0), k)
+        return VList(empty_array(k), z3.IntVal(0), k)
     if name == 'let':
         # let(lambda x=expr: body)
         lam = e.args[0]
